@@ -15,3 +15,42 @@ package clightning
 //@ ensures @C24 exact-amount: result1 == nil ==> result0[0].AmountMsat == bolt11.AmountMsat
 //@ ensures @C24 swap-channel: result1 == nil ==> result0[0].ShortChannelId == strings.ReplaceAll(scid, ":", "x")
 //@ ensures @C04 err-nil-route: result1 != nil ==> len(result0) == 0
+
+// ---------------------------------------------------------------------------
+// C08 (CLN wallet adapter): the announced output index comes from a successful
+// GetVoutAndVerify of the transaction core lightning prepared, the transaction
+// that is sent is that prepared transaction, and the announced id / hex are
+// what `txsend` answered for it. ASSUMED (lightningd): txprepare / txsend
+// answer for the same transaction; signing does not change ids or outputs.
+// ---------------------------------------------------------------------------
+//@ ghost preparedTxId string
+//@ ghost preparedUnsigned string
+//@ ghost sentTxId string
+//@ ghost sentAnswerTxId string
+//@ ghost sentAnswerHex string
+
+//@ extern glightning (*Lightning).PrepareTx
+//@ ensures result1 == nil ==> result0 != nil
+//@ sets ghost.preparedTxId = ite(result0 != nil, result0.TxId, "")
+//@ sets ghost.preparedUnsigned = ite(result0 != nil, result0.UnsignedTx, "")
+//@ assigns nothing
+
+//@ extern glightning (*Lightning).SendTx
+//@ ensures result1 == nil ==> result0 != nil
+//@ sets ghost.sentTxId = txid
+//@ sets ghost.sentAnswerTxId = ite(result0 != nil, result0.TxId, "")
+//@ sets ghost.sentAnswerHex = ite(result0 != nil, result0.SignedTx, "")
+//@ assigns nothing
+
+//@ extern glightning (*Lightning).SetPSBTVersion
+//@ ensures result1 == nil ==> result0 != nil
+//@ assigns nothing
+
+//@ func (*ClightningClient).CreateOpeningTransaction
+//@ property C08
+//@ requires cl != nil && cl.glightning != nil && swapParams != nil
+//@ ensures @C08 vout-verified: result5 == nil ==> ghost.voutOK
+//@ ensures @C08 vout-of-prepared-tx: result5 == nil ==> ghost.voutCheckedHex == ghost.preparedUnsigned
+//@ ensures @C08 vout-is-verified-index: result5 == nil ==> ghost.voutChecked == result4
+//@ ensures @C08 sent-is-prepared: result5 == nil ==> ghost.sentTxId == ghost.preparedTxId
+//@ ensures @C08 announced-is-sent: result5 == nil ==> (result2 == ghost.sentAnswerTxId && result0 == ghost.sentAnswerHex)
